@@ -131,7 +131,7 @@ def parse_instr(el):
     if tag == "array":
         return Instr("array", name=a.get("name"), type=a.get("type"), length=a.get("length"),
                      optional=xml_bool(a.get("optional"), False), delimited=xml_bool(a.get("delimited"), False),
-                     trailing=xml_bool(a.get("trailing-delimiter"), True), el=el)
+                     trailing=xml_bool(a.get("trailing-delimiter"), True), value=text_of(el), el=el)
     if tag == "length":
         off = a.get("offset")
         try:
@@ -139,7 +139,7 @@ def parse_instr(el):
         except ValueError:
             raise SpecError("offset is not an integer")
         return Instr("length", name=a.get("name"), type=a.get("type"), offset=off,
-                     optional=xml_bool(a.get("optional"), False), el=el)
+                     optional=xml_bool(a.get("optional"), False), value=text_of(el), el=el)
     if tag == "dummy":
         return Instr("dummy", type=a.get("type"), value=text_of(el), el=el)
     if tag == "break":
